@@ -142,7 +142,17 @@ theorem encGeomOwn_eq (v : Nat) (g : LGeom) : encGeomOwn v g.type g = encGeom v 
     `REF_INT` (the `(REF_INT)node_id[1 + 3 * geom]` cast is then the identity) -/
 theorem encGeomRecv_eq (v : Nat) (g : LGeom) (hid : wrap32 g.id = g.id) :
     encGeomRecv v g.type (packGeom g.type g) = encGeom v g.type (toRec g) := by
-  unfold encGeomRecv packGeom encGeom toRec
+  have hn : (packGeom g.type g).nodeId = [(g.node : Int), g.id, g.gref] := by
+    unfold packGeom
+    simp [show GatherMeshb.packNodeCol = 0 by decide, show GatherMeshb.packIdCol = 1 by decide,
+      show GatherMeshb.packGrefCol = 2 by decide, List.replicate]
+  unfold encGeomRecv encGeom toRec
+  rw [hn]
+  have hq : (packGeom g.type g).q0 = (if 0 < g.type then g.p0 else 0) ∧
+      (packGeom g.type g).q1 = (if 1 < g.type then g.p1 else 0) := ⟨rfl, rfl⟩
+  rw [hq.1, hq.2]
+  simp only [show GatherMeshb.recvNodeCol = 0 by decide, show GatherMeshb.recvIdCol = 1 by decide,
+    show GatherMeshb.recvGrefCol = 2 by decide]
   by_cases h0 : 0 < g.type <;> by_cases h1 : 1 < g.type <;> simp [h0, h1, hid]
 
 theorem geomBytesFrom_eq (v t : Nat) (ranks : List Rank)
